@@ -12,6 +12,10 @@ C13_OPS = ['prefix_increment', 'prefix_decrement', 'postfix_increment', 'postfix
            'right_shift', 'bitwise_and', 'bitwise_or', 'bitwise_xor', 'boolean_and', 'boolean_or', 'less_than',
            'less_equal', 'greater_than', 'greater_equal', 'equality', 'inequality']
 
+C11_SHAPES = ['c11_shape_or', 'c11_shape_and', 'c11_shape_eq', 'c11_shape_ne', 'c11_shape_lt', 'c11_shape_lt_adjacent', 'c11_shape_le',
+              'c11_shape_gt', 'c11_shape_ge', 'c11_prec_or_and', 'c11_prec_and_or', 'c11_prec_and_eq', 'c11_prec_eq_lt', 'c11_prec_lt_eq',
+              'c11_assoc_lt_lt', 'c11_assoc_eq_ne', 'c11_assoc_or_or', 'c11_shape_lt_space_eq_is_not_le']
+
 ALL_V_UNITS = ['cond_chain', 'cond_parser', 'bindings', 'lexer_digits', 'token_stream', 'source_manager', 'layout',
                'hlsl_bindings', 'hlsl_analyse', 'hlsl_expr', 'hlsl_literal', 'msl_literal', 'evaluator']
 
@@ -63,10 +67,15 @@ PROPS = {
     'C11': {
         'title': 'Conditional compilation selects exactly the branches C semantics select',
         'v_units': ['cond_chain', 'cond_parser'],
-        # discharges the assumed is_active contract on the real function and survives representation changes (21 min: thorough only)
-        'k_groups': [{'module': 'preprocess/preprocess.rs',
-                      'harnesses': [('c11_condition_chain_sequence_bounded', 'bounded:operation sequences of length 5')],
-                      'tier': 'thorough'}],
+        'k_groups': [
+            # precedence / associativity of the condition parser: one concrete token shape each, operands fully symbolic
+            {'module': 'preprocess/condition_parser.rs',
+             'harnesses': [(h, 'bounded:one token shape, u64 operands complete') for h in C11_SHAPES], 'tier': 'quick'},
+            # discharges the assumed is_active contract on the real function and survives representation changes (21 min: thorough only)
+            {'module': 'preprocess/preprocess.rs',
+             'harnesses': [('c11_condition_chain_sequence_bounded', 'bounded:operation sequences of length 5')],
+             'tier': 'thorough'},
+        ],
         'design_ref': 'DESIGN.md Part I, I.4 (C11)',
     },
     'C13': {
